@@ -59,8 +59,14 @@ func checkC17(c *Ctx) {
 	p := scanProfile{MaxTraces: 40}
 	s := &scanRun{c: c, env: &scanEnv{c: c, bin: race}, p: p, src: map[string]map[string]interface{}{}, traces: map[string][]map[string]interface{}{}}
 	total := 0
-	for r := 0; r < nrepos; r++ {
-		ac := genAddrCase(rng, fmt.Sprintf("d%d", r+1), flavours[r%len(flavours)])
+	// two more repositories carry a shallow marker (a real one, and a stale empty one): the run must refuse
+	// them, and refusing must not touch them either
+	for r := 0; r < nrepos+2; r++ {
+		fl := flavours[r%len(flavours)]
+		if r >= nrepos {
+			fl = []string{"shallow", "shallow-empty"}[r-nrepos]
+		}
+		ac := genAddrCase(rng, fmt.Sprintf("d%d", r+1), fl)
 		base, _ := os.MkdirTemp(c.Scratch, "det-")
 		l, _, err := buildLayout(base, &ac)
 		if err != nil {
@@ -73,6 +79,9 @@ func checkC17(c *Ctx) {
 			}
 			for _, procs := range []int{1, 2, 4, 16} {
 				for rep := 0; rep < reps; rep++ {
+					if ac.Shallow && (rep > 0 || procs > 2) {
+						continue
+					}
 					ar := e.runAddr(l, m, base, race, procs)
 					total++
 					c.Distinct(fmt.Sprintf("%s/%s/%d/%d", ac.ID, m.Name, procs, rep))
@@ -83,7 +92,12 @@ func checkC17(c *Ctx) {
 					if strings.Contains(ar.Stderr, "DATA RACE") || ar.Exit == 66 {
 						why = append(why, "data_race_reported")
 					}
-					if ar.Exit != 0 {
+					if ac.Shallow {
+						// refused (C13 judges the refusal); here only: nothing written, nothing measured
+						if ar.Exit == 0 || ar.Stdout != "" {
+							why = append(why, "shallow_clone_measured")
+						}
+					} else if ar.Exit != 0 {
 						why = append(why, "no_report")
 					} else {
 						if first == "" {
